@@ -181,18 +181,18 @@ type simW struct {
 	live, cancelled bool
 }
 type sim struct {
-	pool              []call
-	regs              map[int]*simW // registered and not cleaned up, by name
-	all               []*simW
-	running, stopped  bool
-	once, shutActive  bool
-	shutDone          bool
-	waiters, runWait  []int
-	pausedBW          map[int]bool
-	pausedStart       map[int]int // call -> steps (1: after check, 3: locked)
-	lockHeld          int
-	deferred          []func(e *obs)
-	done              map[int]bool
+	pool             []call
+	regs             map[int]*simW // registered and not cleaned up, by name
+	all              []*simW
+	running, stopped bool
+	once, shutActive bool
+	shutDone         bool
+	waiters, runWait []int
+	pausedBW         map[int]bool
+	pausedStart      map[int]int // call -> steps (1: after check, 3: locked)
+	lockHeld         int
+	deferred         []func(e *obs)
+	done             map[int]bool
 }
 
 func newSim(pool []call) *sim {
@@ -742,14 +742,14 @@ func (pkgAPI) GetRunningBackgroundWorkers() []string { return daemon.GetRunningB
 func (pkgAPI) BackgroundWorker(name string, h daemon.WorkerFunc, order ...int) error {
 	return daemon.BackgroundWorker(name, h, order...)
 }
-func (pkgAPI) DebugLogger(l log.Logger)           { daemon.DebugLogger(l) }
-func (pkgAPI) Start()                             { daemon.Start() }
-func (pkgAPI) Run()                               { daemon.Run() }
-func (pkgAPI) Shutdown()                          { daemon.Shutdown() }
-func (pkgAPI) ShutdownAndWait()                   { daemon.ShutdownAndWait() }
-func (pkgAPI) IsRunning() bool                    { return daemon.IsRunning() }
-func (pkgAPI) IsStopped() bool                    { return daemon.IsStopped() }
-func (pkgAPI) ContextStopped() context.Context    { return daemon.ContextStopped() }
+func (pkgAPI) DebugLogger(l log.Logger)        { daemon.DebugLogger(l) }
+func (pkgAPI) Start()                          { daemon.Start() }
+func (pkgAPI) Run()                            { daemon.Run() }
+func (pkgAPI) Shutdown()                       { daemon.Shutdown() }
+func (pkgAPI) ShutdownAndWait()                { daemon.ShutdownAndWait() }
+func (pkgAPI) IsRunning() bool                 { return daemon.IsRunning() }
+func (pkgAPI) IsStopped() bool                 { return daemon.IsStopped() }
+func (pkgAPI) ContextStopped() context.Context { return daemon.ContextStopped() }
 
 // registerShaped passes the order in one of the argument shapes the variadic signature admits (all mean `order`).
 func registerShaped(d daemon.Daemon, shape int, name string, h daemon.WorkerFunc, order int) error {
@@ -880,7 +880,6 @@ func runChild(req childReq) (childResp, error) {
 	}
 	return resp, nil
 }
-
 
 // ---------- script generation ----------
 
@@ -1072,7 +1071,7 @@ func directedExtreme() [][2]any {
 			[]op{{opGo, 0, 0}, {opGo, 1, 0}, {opGo, 2, 0}, {opGo, 3, 0}, {opGo, 4, 0}, {opGo, 5, 0},
 				{opRelease, 3, 0}, {opRelease, 2, 0}, {opRelease, 0, 0}, {opRelease, 1, 0}}},
 		// a name moves from one end to the other by re-registration; 0 in between
-		{[]call{{Kind: cStart}, bw(0, hi, kFree), bw(1, 0, kFree), bw(0, lo, kOnCancel), bw(2, 1<<32 + 5, kFree), bw(3, 5, kFree), {Kind: cShut, Sync: true}},
+		{[]call{{Kind: cStart}, bw(0, hi, kFree), bw(1, 0, kFree), bw(0, lo, kOnCancel), bw(2, 1<<32+5, kFree), bw(3, 5, kFree), {Kind: cShut, Sync: true}},
 			[]op{{opGo, 0, 0}, {opGo, 1, 0}, {opGo, 2, 0}, {opRelease, 1, 0}, {opGo, 3, 0}, {opGo, 4, 0}, {opGo, 5, 0}, {opGo, 6, 0},
 				{opRelease, 4, 0}, {opRelease, 5, 0}, {opRelease, 2, 0}}},
 	}
@@ -1161,8 +1160,8 @@ func coqLog(evs []event) string {
 }
 
 type freeDesc struct {
-	Pool   []call `json:"pool"`
-	Seed   uint64 `json:"seed"`
+	Pool   []call  `json:"pool"`
+	Seed   uint64  `json:"seed"`
 	Events []event `json:"events,omitempty"`
 }
 
